@@ -10,6 +10,9 @@ from __future__ import annotations
 
 import pickle
 
+import os
+import pickle
+
 import numpy as np
 
 from .. import recorded
@@ -64,6 +67,40 @@ def run_case(case):
             counters["resumed_histories_judged"] += 1
             recorded.judge_history(rr, where + f" [resumed from iteration {it} via {'bytes' if it % 2 else 'dict'}]", viol, counters, mutated=None)
             resumed_from.append(it)
+    if cfg["sampler"] == "smc" and T >= 2:
+        # interrupted (an Exception or a Ctrl-C arriving inside the user's likelihood) and continued from whatever the run left
+        # in its checkpoint file and in memory: the finished history must still be a faithful record
+        from ..harness import InjectedFault, InjectedInterrupt, Probe, rm_tmp, tmpfile
+
+        k = int(base.probe.n_like_calls * g.uniform(0.3, 0.9))
+        fexc = InjectedInterrupt if g.random() < 0.6 else InjectedFault
+        path = tmpfile("h.h5")
+        try:
+            pf = Probe(base.target, fault_like_at=k, cut_below=cfg.get("cut_below"), fault_exc=fexc)
+            f = recorded.record(cfg, probe=pf, with_callback=False, ckpt_path=path)
+            if isinstance(f.exc, (InjectedFault, InjectedInterrupt)):
+                srcs = []
+                if os.path.exists(path):
+                    srcs.append(("file", path))
+                lb = getattr(f.sampler, "last_checkpoint_bytes", None)
+                if lb is not None:
+                    srcs.append(("last_checkpoint_bytes", lb))
+                for label, src in srcs:
+                    try:
+                        it0 = pickle.loads(lb).get("iteration") if lb is not None else None
+                    except Exception:  # noqa: BLE001
+                        it0 = None
+                    rr = recorded.record(cfg, rng=np.random.default_rng(777 + k), resume_from=src, with_callback=False)
+                    if rr.exc is not None:
+                        if "No checkpoint" in str(rr.exc) or isinstance(rr.exc, (KeyError, FileNotFoundError)):
+                            continue  # interrupted before the first checkpoint: nothing to continue from
+                        raise rr.exc
+                    counters["interrupted_and_continued_histories_judged"] += 1
+                    recorded.judge_history(rr, where + f" [{fexc.__name__} at likelihood call {k}, continued from {label}]", viol, counters, mutated=None)
+            elif f.exc is not None:
+                raise f.exc
+        finally:
+            rm_tmp(path)
     if cfg["sampler"] in ("smc", "emcee_smc") and g.random() < 0.4:
         again = recorded.record_again(base, rng=np.random.default_rng(cfg["rng_seed"] + 23) if cfg["sampler"] == "smc" else None)
         if again.exc is not None:
